@@ -60,6 +60,7 @@ class Model:
                 self.modules[name]._path = p
                 self.noise_removed += alpha.strip_noise(self.modules[name])         # pass / assert / print / logging statements
                 alpha.split_tuple_assigns(self.modules[name])                         # one binding per statement
+                alpha.normalise_polarity(self.modules[name])                          # no `if not c ... else ...`
                 # locals renamed since the rules were confirmed are renamed back (an alpha-conversion; see sa/alpha.py); explaining variables
                 # added since are substituted back, after which a second renaming pass may apply
                 tab = self.locals_table.get(name, {})
